@@ -86,7 +86,7 @@ def histories(rng, thorough):
         hs.append(['n'] + ['x0'] * 7 + ['n'] + ['x1'] * k + ['v'] + ['x1'] * 7)
         hs.append(['n', 'n'] + ['x0'] * 7 + ['n'] + ['x2'] * k + ['x1'] * 2 + ['x2'] * 7 + ['v', 'd1'])
     ntarget = len(hs)
-    n = 1500 if thorough else 160
+    n = 300 if thorough else 160
     for _ in range(n):
         ops, created, dropped_view = [], 0, False
         for _ in range(rng.randrange(2, 18)):
